@@ -123,10 +123,15 @@ pub open spec fn dev_ok<T: Dev + ?Sized>(a: &T) -> bool {
 // afterwards.  `read` may be short in any way it likes (but returns 0 only at
 // end of data or for an empty buffer, as std documents).
 pub trait Read: Dev {
+    // what ONE read does to an adapter, in its own terms (default: nothing is said).  Adapters whose effect is known
+    // override it (Take over a device: take_read; CryptoReader::Plaintext: its Take), so that a generic wrapper such as
+    // Crc32Reader<R> can export "my read IS my inner reader's read" without knowing R.
+    open spec fn g_read_rel(&self, after: &Self, buf_len: int, out: Seq<u8>, r: io::Result<usize>) -> bool { true }
     fn read(&mut self, buf: &mut [u8]) -> (r: io::Result<usize>)
         requires
             old(self).g_ready(),
         ensures
+            old(self).g_read_rel(final(self), old(buf)@.len() as int, final(buf)@, r),
             final(buf)@.len() == old(buf)@.len(),
             r matches Ok(n) ==> n <= old(buf)@.len(),
             rd_step(old(self), final(self)),
@@ -317,6 +322,9 @@ pub open spec fn take_read<R: Dev>(a_inner: R, a_limit: u64, b_inner: R, b_limit
             && (n == 0 ==> (buf_len == 0 || a_limit == 0 || a_inner.g_pos() >= a_inner.g_bytes().len()))))
 }
 impl<'a> Read for Take<DynRead<'a>> {
+    open spec fn g_read_rel(&self, after: &Self, buf_len: int, out: Seq<u8>, r: io::Result<usize>) -> bool {
+        take_read(self.inner, self.limit, after.inner, after.limit, buf_len, out, r is Ok, (if r is Ok { r->Ok_0 as int } else { 0 }))
+    }
     #[verifier::external_body]
     fn read(&mut self, buf: &mut [u8]) -> (r: io::Result<usize>)
         ensures
